@@ -159,8 +159,8 @@ Definition ack_frame (id a b : Z) (fin : bool) (s : st) : st :=
         let st' := if (s_state sd =? 1) && fin then 2 else s_state sd in
         let sd' := mkSend st' (s_stop sd) (s_off sd) un (s_unsent sd) acks (s_retx sd) (s_finp sd) in
         if (st' =? 2) && (un =? 0) then
-          let s1 := stream_freed id true (set_sendm (aremove id (sendm s)) s) in
-          set_events (events s1 ++ [[4; id]]) s1
+          let s1 := stream_freed id true (set_sendm (aremove_all id (sendm s)) s) in
+          set_g_fin (id :: g_fin s1) (set_events (events s1 ++ [[4; id]]) s1)
         else with_send id sd' s
   | _ => s
   end.
@@ -210,15 +210,49 @@ Definition poll_op (s : st) : st * list Z :=
 
 Definition step_core (s : st) (op : list Z) : option (st * list Z * option Z * list Z) :=
   match op with
-  | [10; id; len] => let '(s', o) := write_op id len s in Some (s', o, Some id, [])
-  | [11; id] => let '(s', o) := finish_op id s in Some (s', o, Some id, [])
-  | [13; id] => let '(s', o) := stopped_op id s in Some (s', o, Some id, [])
-  | [14; id; code] => let '(s', o) := stop_sending_op id code s in Some (s', o, Some id, [])
-  | [15] => let '(s', o, l) := flush_op s in Some (s', o, None, l)
-  | [16; k] => let '(s', o) := log_op false k s in Some (s', o, None, [])
-  | [19; k] => let '(s', o) := log_op true k s in Some (s', o, None, [])
-  | [18] => let '(s', o) := poll_op s in Some (s', o, None, [])
-  | _ => FlowRecv.step_core true s op
+  | [] => None
+  | c :: a =>
+      if c =? 10 then
+        match a with
+        | [id; len] => let '(s', o) := write_op id len s in Some (s', o, Some id, [])
+        | _ => None
+        end
+      else if c =? 11 then
+        match a with
+        | [id] => let '(s', o) := finish_op id s in Some (s', o, Some id, [])
+        | _ => None
+        end
+      else if c =? 13 then
+        match a with
+        | [id] => let '(s', o) := stopped_op id s in Some (s', o, Some id, [])
+        | _ => None
+        end
+      else if c =? 14 then
+        match a with
+        | [id; code] => let '(s', o) := stop_sending_op id code s in Some (s', o, Some id, [])
+        | _ => None
+        end
+      else if c =? 15 then
+        match a with
+        | [] => let '(s', o, l) := flush_op s in Some (s', o, None, l)
+        | _ => None
+        end
+      else if c =? 16 then
+        match a with
+        | [k] => let '(s', o) := log_op false k s in Some (s', o, None, [])
+        | _ => None
+        end
+      else if c =? 19 then
+        match a with
+        | [k] => let '(s', o) := log_op true k s in Some (s', o, None, [])
+        | _ => None
+        end
+      else if c =? 18 then
+        match a with
+        | [] => let '(s', o) := poll_op s in Some (s', o, None, [])
+        | _ => None
+        end
+      else FlowRecv.step_core true s op
   end.
 
 Definition step (s : st) (op : list Z) : st * list Z :=
